@@ -234,6 +234,11 @@ impl Gitignore {
             a_match => return a_match,
         }
         while let Some(parent) = path.parent() {
+            // The parent of a single component is the empty path, i.e., the
+            // root itself, which no rule applies to.
+            if parent.as_os_str().is_empty() {
+                break;
+            }
             match self.matched_stripped(parent, /* is_dir */ true) {
                 Match::None => path = parent, // walk up
                 a_match => return a_match,
